@@ -732,7 +732,11 @@ def validate_path(ctx, ex, fam, inst, path, I, res, srcfile):
         return
     bad = []
     for k, v in Oi.items():
+        if k.startswith('__'):
+            continue
         w = On.get(k)
+        if w is None:
+            continue
         if isinstance(v, list):
             for i, (x, y) in enumerate(zip(v, w)):
                 if x is None:
